@@ -4,7 +4,7 @@ import ast
 from ..model import (AnalysisError, FUNC_TYPES, U, call_attr, call_name, dotted, enclosing, enclosing_function, guard_texts, guards_ex,
                      short, walk_body, walk_local, ancestors, parent, const_str, kwarg, literal)
 from ..util import params, find_calls, assigns_to, trace, stmt_of, has_exit, syn_dominates
-from ..absint import Interp, State, Unsupported, T, F, UNK
+from ..absint import Interp, State, Unsupported, T, F, UNK, unroll_literal_loops
 
 CFG = "insights.client.config"
 OFFLINE_VETO = ["to_json", "status", "test_connection", "checkin", "unregister", "check_results", "diagnosis"]
@@ -42,7 +42,12 @@ def r1_layering(cx):
                    construct="%d _update_dict calls, %d direct writes" % (len(ups), len(direct)))
     ud = m.func("InsightsConfig._update_dict", "C16.R1")
     last = ud.body[-1]
-    cx.require(isinstance(last, ast.Expr) and U(last.value) == "self.__dict__.update(dict_)", last, "_update_dict ends by updating the instance dict (override semantics)", construct=short(last))
+    ok = isinstance(last, ast.Expr) and isinstance(last.value, ast.Call) and U(last.value.func) == "self.__dict__.update" and len(last.value.args) == 1 and isinstance(last.value.args[0], ast.Name)
+    if ok:
+        w = last.value.args[0].id
+        src = [a for a in assigns_to(ud, w)]
+        ok = w == params(ud)[1] and not src or (len(src) == 1 and ("%s.items()" % params(ud)[1]) in U(src[0].value))
+    cx.require(ok, last, "_update_dict ends by updating the instance dict (override semantics)", construct=short(last))
 
 
 def r2_cli_suppress(cx):
@@ -68,21 +73,30 @@ def r3_unknown_filtered(cx):
     cx.rule("C16.R3", "unknown option names never become settings", floor=3)
     m = cx.repo.module(CFG)
     fn = m.func("InsightsConfig._update_dict", "C16.R3")
-    d = params(fn)[1]
+    d0 = params(fn)[1]
+    upd = [x for x in find_calls(fn.body) if U(x.func) == "self.__dict__.update"]
+    d = U(upd[0].args[0]) if len(upd) == 1 and upd[0].args and isinstance(upd[0].args[0], ast.Name) else d0    # the working dict (the parameter itself or a filtered copy)
     un = [a for a in walk_body(fn.body) if isinstance(a, ast.Assign) and U(a.targets[0]) == "unknown_opts"]
-    ok = len(un) == 1 and U(un[0].value) in ("set(%s.keys()).difference(set(DEFAULT_OPTS.keys()))" % d, "set(%s) - set(DEFAULT_OPTS)" % d)
+
+    def _setdiff(t):
+        t = t.replace(".keys()", "")
+        if ".difference(" in t and t.endswith(")"):
+            a, b = t[:-1].split(".difference(", 1)
+            t = "%s - %s" % (a, b)
+        return t.replace("set(DEFAULT_OPTS)", "DEFAULT_OPTS").replace("list(%s)" % d, d)
+    ok = len(un) == 1 and _setdiff(U(un[0].value)) == "set(%s) - DEFAULT_OPTS" % d
     cx.require(ok, un[0] if un else fn, "unknown = keys of the incoming dict that are not in DEFAULT_OPTS", construct=short(un[0]) if un else "(none)")
     pops = [x for x in find_calls(fn.body, attr="pop") if U(x.func.value) == d]
-    upd = [x for x in find_calls(fn.body) if U(x.func) == "self.__dict__.update"]
     ok = False
-    if pops and upd:
+    if pops and len(upd) == 1:
         lp = enclosing(pops[0], ast.For)
         ok = lp is not None and U(lp.iter) == "unknown_opts" and U(pops[0].args[0]) == U(lp.target) and not guard_texts(pops[0], stop=lp) and not has_exit(lp.body) \
-            and syn_dominates(lp, upd[0]) and not guard_texts(lp) and U(upd[0].args[0]) == d
+            and syn_dominates(lp, upd[0]) and not guard_texts(lp) and U(upd[0].args[0]) == d \
+            and not [a for a in assigns_to(fn, d) + assigns_to(fn, "unknown_opts") if un and a.lineno > un[0].lineno]
     cx.require(ok, pops[0] if pops else fn, "every unknown key is removed before the instance dict is updated, unconditionally",
                construct="for u in unknown_opts: dict_.pop(u, None) ; self.__dict__.update(dict_)")
     flt = [a for a in fn.body if isinstance(a, ast.Assign) and U(a.targets[0]) == d]
-    ok = bool(flt) and U(flt[0].value) == "dict(((k, v) for k, v in %s.items() if k not in self._init_attrs))" % d and (not upd or syn_dominates(flt[0], upd[0]))
+    ok = len(flt) == 1 and U(flt[0].value) == "dict(((k, v) for k, v in %s.items() if k not in self._init_attrs))" % d0 and (not upd or syn_dominates(flt[0], upd[0])) and (not un or syn_dominates(flt[0], un[0]))
     cx.require(ok, flt[0] if flt else fn, "names of existing attributes/methods are filtered out first (a setting cannot clobber a method)", construct=short(flt[0], 120) if flt else "(none)")
     # the only other dynamic-key writers of the instance
     c = m.cls("InsightsConfig", "C16.R3")
@@ -99,16 +113,25 @@ def r4_coercion(cx):
     cx.rule("C16.R4", "numeric and boolean coercion agree between the environment and the file loader; every option has a default", floor=4)
     m = cx.repo.module(CFG)
     env = m.func("InsightsConfig._load_env", "C16.R4")
-    lp = [s for s in walk_body(env.body) if isinstance(s, ast.For) and isinstance(s.iter, ast.List)]
-    env_keys = None
-    if lp:
-        try:
-            env_keys = set(literal(cx.repo, lp[0].iter))
-        except ValueError:
-            env_keys = None
-    conv = [a for a in walk_body(env.body) if isinstance(a, ast.Assign) and U(a.targets[0]) == "insights_env_opts[k]"]
-    ok = env_keys == set(["retries", "cmd_timeout", "http_timeout"]) and bool(conv) and U(conv[0].value) == "float(v) if k == 'http_timeout' else int(v)"
-    cx.require(ok, lp[0] if lp else env, "environment: retries, cmd_timeout -> int, http_timeout -> float", construct="%s: %s" % (sorted(env_keys) if env_keys else None, short(conv[0]) if conv else None))
+    # view: the loop over the table of numeric options is unrolled; every store insights_env_opts['<k>'] = <conv>(...) is then explicit
+    unroll_literal_loops(env)
+    convs = {}
+    bad_store = None
+    for a in walk_body(env.body):
+        if isinstance(a, ast.Assign) and isinstance(a.targets[0], ast.Subscript) and U(a.targets[0].value) == "insights_env_opts" and isinstance(a.targets[0].slice, ast.Constant):
+            k = a.targets[0].slice.value
+            v = a.value
+            while isinstance(v, ast.IfExp) and isinstance(v.test, ast.Compare) and len(v.test.ops) == 1 and isinstance(v.test.ops[0], (ast.Eq, ast.NotEq)) \
+                    and isinstance(v.test.left, ast.Constant) and isinstance(v.test.comparators[0], ast.Constant):
+                eq = v.test.left.value == v.test.comparators[0].value
+                v = v.body if eq == isinstance(v.test.ops[0], ast.Eq) else v.orelse
+            if isinstance(v, ast.Call) and call_name(v) in ("int", "float") and len(v.args) == 1 and U(trace(v.args[0], env)) in ("insights_env_opts['%s']" % k, U(v.args[0])) \
+                    and (U(v.args[0]) == "insights_env_opts['%s']" % k or any(U(d.value) == "insights_env_opts['%s']" % k for d in assigns_to(env, U(v.args[0])))):
+                convs.setdefault(k, set()).add(call_name(v))
+            else:
+                bad_store = a
+    ok = convs == {"retries": set(["int"]), "cmd_timeout": set(["int"]), "http_timeout": set(["float"])} and bad_store is None
+    cx.require(ok, bad_store if bad_store is not None else env, "environment: retries, cmd_timeout -> int, http_timeout -> float", construct="%s" % sorted((k, sorted(v)) for k, v in convs.items()))
     fl = m.func("InsightsConfig._load_config_file", "C16.R4")
     gi = [x for x in find_calls(fl.body, attr="getint")]
     gf = [x for x in find_calls(fl.body, attr="getfloat")]
@@ -212,6 +235,22 @@ def r5_implication_table(cx):
     if tail != ["_imply_options", "_validate_options"]:
         cx.bad(la, "load_all finishes with _imply_options then _validate_options (the composition that is interpreted)", construct="tail: %s" % tail)
         return
+    # view: loops over literal tables are unrolled, so that the cone of influence and the interpreter see plain guarded statements
+    table = dict((st.name, st) for st in cls.body if isinstance(st, FUNC_TYPES))
+    todo, seen = ["_imply_options", "_validate_options"], set()
+    while todo:
+        n = todo.pop()
+        if n in seen or n not in table:
+            continue
+        seen.add(n)
+        unroll_literal_loops(table[n])
+        for c in find_calls(table[n].body):
+            if U(c.func).startswith("self.") and c.func.attr in table:
+                todo.append(c.func.attr)
+        dyn = [c for c in ast.walk(table[n]) if isinstance(c, ast.Call) and call_name(c) in ("getattr", "setattr") and c.args and U(c.args[0]) == "self"]
+        if dyn:
+            cx.unknown(dyn[0], "dynamic attribute access '%s' in %s: the truthiness interpretation cannot follow it" % (short(dyn[0]), n))
+            return
     peak = 0
     for title, assume, want in obligations():
         seed = set(assume) | (set([want[1]]) if want[0] == "holds" else set())
